@@ -12,6 +12,7 @@ cp /repo/go.sum build/hsrc/go.sum
 ./build/harness gen -out coq/gen
 ./build/harness gen-codec -out coq/gen
 ./build/harness gen-errors -out coq/gen
+./build/harness gen-go -out coq/gen
 (cd coq && coq_makefile -f _CoqProject -o Makefile >/dev/null 2>&1 && timeout 3000 make -j16 2>&1 | grep -v '^COQC\|^COQDEP\|^Closed under' || true)
 (cd coq && make -j16 >/dev/null 2>&1)
 sh runner/build.sh
